@@ -8,6 +8,7 @@ Require Import WV.proofs.C06_cascade WV.proofs.C06_order WV.proofs.C06_inherit W
 Require WV.base.Py WV.gen.GenCss WV.proofs.C06_gen_precedence WV.gen.GenMedia WV.proofs.C06_gen_media.
 Require WV.base.PyLink WV.gen.GenComputed WV.proofs.C06_gen_length WV.proofs.C06_gen_font_size WV.proofs.C06_gen_tuples.
 Require WV.gen.GenComputedGap WV.proofs.C06_gen_gap WV.proofs.C06_gen_border_width.
+Require WV.proofs.C06_gen_tab_size.
 Import ListNotations.
 
 (* ================================================================ 1. the cascade *)
@@ -541,3 +542,27 @@ Theorem C06_source_border_width_keys :
   C06_gen_border_width.str_replace "width" "style" "outline_width" = "outline_style".
 Proof. repeat split. Qed.
 Print Assumptions C06_source_border_width_keys.
+
+(* tab_size (tab-size), regenerated whole, operations lops3: an int (a number of spaces) is kept; every other value
+   is what length() (pixels_only=False) makes of it, i.e. the hand model C06Values.length *)
+Theorem C06_source_tab_size xr cr own rootfs (root : bool) more n :
+  let call value :=
+    PyLink.call_body (C06_gen_border_width.lops3 xr cr) C06_gen_tab_size.tab_size_fn
+      [C06_gen_length.style_val own rootfs root more; Py.VStr n; value] in
+  (forall q z, Py.as_int q = Some z -> call (Py.VNum q) = Py.VNum q) /\
+  (forall k v, C06_gen_length.res_ok false (C06_gen_length.lval_val k v)
+                 (length (C06_gen_length.env_of xr cr own rootfs root more) (String.eqb n "font_size") None v)
+                 (call (C06_gen_length.lval_val k v))).
+Proof. exact (C06_gen_tab_size.gen_tab_size xr cr own rootfs root more n). Qed.
+Print Assumptions C06_source_tab_size.
+
+(* a tab-size length in an absolute unit is the fixed multiple of the pixel, a Dimension in px, never negative for a
+   non-negative specified length *)
+Theorem C06_source_tab_size_absolute xr cr own rootfs (root : bool) more n v u f :
+  to_pixels u = Some f ->
+  exists q, (q == v * f)%Q /\ ((0 <= v)%Q -> (0 <= q)%Q) /\
+    PyLink.call_body (C06_gen_border_width.lops3 xr cr) C06_gen_tab_size.tab_size_fn
+      [C06_gen_length.style_val own rootfs root more; Py.VStr n;
+       C06_gen_length.dim v (Py.VStr (C06_gen_length.unit_str u))] = C06_gen_length.dim q (Py.VStr "px").
+Proof. exact (C06_gen_tab_size.gen_tab_size_absolute xr cr own rootfs root more n v u f). Qed.
+Print Assumptions C06_source_tab_size_absolute.
